@@ -73,6 +73,12 @@ struct Item {
     v: u32,
 }
 
+/// A per-item marker with the kinds of text real selectors carry (names, punctuation, non-ASCII): the bytes of
+/// a token depend on it, the scan must not.
+fn label(v: u32) -> &'static str {
+    ["", "dave?", "é", "日本", ">>", "~x~", "a?b>c", "ÿþ", "x/y+z", "??>>~~"][(v % 10) as usize]
+}
+
 #[endpoint { method = GET, path = "/items" }]
 async fn ep_items_handler(
     rqctx: RequestContext<Arc<Ctx>>,
@@ -115,7 +121,7 @@ async fn ep_items_handler(
     Ok(HttpResponseOk(ResultsPage::new(items, &scan, |item: &Item, s: &Scan| Sel {
         order: s.order.unwrap(),
         last: item.v,
-        pad: pad.clone(),
+        pad: format!("{}{}", label(item.v), pad),
     })?))
 }
 
